@@ -81,13 +81,21 @@ def components(n, edges):
 _SE_CACHE = {}
 
 
-def _events(n):
+def _events(n, variant=0):
+    """variant bit 0: events at odd positions have no geometry; bit 1: events come from two recordings (e.g. two synchronised
+    recorders) alternately - "any list of sound events"."""
     from soundevent import data
 
-    if n not in _SE_CACHE:
-        rec = data.Recording(path="r.wav", duration=100.0, channels=1, samplerate=8000)
-        _SE_CACHE[n] = [data.SoundEvent(geometry=data.TimeStamp(coordinates=float(i)), recording=rec) for i in range(n)]
-    return _SE_CACHE[n]
+    if (n, variant) not in _SE_CACHE:
+        recs = [data.Recording(path=f"r{k}.wav", duration=100.0, channels=1, samplerate=8000) for k in range(2)]
+        _SE_CACHE[(n, variant)] = [
+            data.SoundEvent(
+                geometry=None if (variant & 1 and i % 2) else data.TimeStamp(coordinates=float(i)),
+                recording=recs[(i // 2) % 2 if variant & 2 else 0],
+            )
+            for i in range(n)
+        ]
+    return _SE_CACHE[(n, variant)]
 
 
 def check(spec, ctx):
@@ -102,10 +110,11 @@ def check(spec, ctx):
         edges = [tuple(e) for e in spec["edges"]]
     eset = {frozenset(e) for e in edges}
     ret_kind = (spec.get("mask", 0) + len(spec.get("edges", []))) % 3
-    events = list(_events(n))
+    variant = (spec.get("mask", 0) // 3 + len(spec.get("edges", [])) // 2 + n) % 4
+    events = list(_events(n, variant))
     for i, j in spec.get("copies", []):
         # position i holds a separate object that compares equal to the event at position j (e.g. loaded twice)
-        events[i] = _events(n)[j].model_copy()
+        events[i] = _events(n, variant)[j].model_copy()
     index = {id(e): i for i, e in enumerate(events)}
     calls = []
 
@@ -128,7 +137,7 @@ def check(spec, ctx):
     out = ctx.call(spec, f"group_sound_events(n={n})", group_sound_events, events, cmp)
     if [id(e) for e in events] != ids_before:
         ctx.fail("group_sound_events reordered or modified the input list", spec, None, None, kind="input_mutated")
-    ctx.case(spec, nontrivial=nontrivial, labels=[f"n={n}" if n <= 6 else "n>6", f"components={min(len(exp), 5)}{'+' if len(exp) > 5 else ''}"], out={"groups": len(out)})
+    ctx.case(spec, nontrivial=nontrivial, labels=[f"n={n}" if n <= 6 else "n>6", f"events_variant={variant}", f"components={min(len(exp), 5)}{'+' if len(exp) > 5 else ''}"], out={"groups": len(out)})
 
     if not isinstance(out, list) or not all(isinstance(s, data.Sequence) for s in out):
         ctx.fail("result is not a list of Sequence objects", spec, repr(out)[:200], None, kind="type")
